@@ -6,21 +6,23 @@ use crate::fields::Tiny;
 use ark_ff::{BigInt, Fp, FpConfig, SqrtPrecomputation};
 use core::marker::PhantomData;
 
-pub const fn mul_table<const P: usize>() -> [[u8; P]; P] {
-    let mut t = [[0u8; P]; P];
+/// tables are padded to 32 x 32 entries and indexed with `limb & 31`: no division and no bounds failure for any limb value
+/// (elements are always < P <= 19, so the padding is never semantically reached)
+pub const fn mul_table<const P: usize>() -> [[u8; 32]; 32] {
+    let mut t = [[0u8; 32]; 32];
     let mut a = 0;
-    while a < P {
+    while a < 32 {
         let mut b = 0;
-        while b < P {
-            t[a][b] = ((a * b) % P) as u8;
+        while b < 32 {
+            t[a][b] = (((a % P) * (b % P)) % P) as u8;
             b += 1;
         }
         a += 1;
     }
     t
 }
-pub const fn inv_table<const P: usize>() -> [u8; P] {
-    let mut t = [0u8; P];
+pub const fn inv_table<const P: usize>() -> [u8; 32] {
+    let mut t = [0u8; 32];
     let mut a = 1;
     while a < P {
         let mut b = 1;
@@ -50,8 +52,8 @@ macro_rules! plain_field {
     ($cfg:ident, $ty:ident, $p:expr, $gen:expr, $adicity:expr, $trace_m1_d2:expr, $bits:expr) => {
         pub struct $cfg;
         impl $cfg {
-            pub const MUL: [[u8; $p]; $p] = mul_table::<$p>();
-            pub const INV: [u8; $p] = inv_table::<$p>();
+            pub const MUL: [[u8; 32]; 32] = mul_table::<$p>();
+            pub const INV: [u8; 32] = inv_table::<$p>();
             const fn el(v: u64) -> Fp<Self, 1> {
                 Fp(BigInt([v]), PhantomData)
             }
@@ -86,7 +88,7 @@ macro_rules! plain_field {
                 (a.0).0[0] = (if x == 0 { 0 } else { $p as u8 - x }) as u64;
             }
             fn mul_assign(a: &mut Fp<Self, 1>, b: &Fp<Self, 1>) {
-                (a.0).0[0] = Self::MUL[((a.0).0[0] as usize) % $p][((b.0).0[0] as usize) % $p] as u64;
+                (a.0).0[0] = Self::MUL[((a.0).0[0] & 31) as usize][((b.0).0[0] & 31) as usize] as u64;
             }
             fn sum_of_products<const T: usize>(a: &[Fp<Self, 1>; T], b: &[Fp<Self, 1>; T]) -> Fp<Self, 1> {
                 let mut s = Self::ZERO;
@@ -104,7 +106,7 @@ macro_rules! plain_field {
                 Self::mul_assign(a, &c);
             }
             fn inverse(a: &Fp<Self, 1>) -> Option<Fp<Self, 1>> {
-                let x = (a.0).0[0] as usize % $p;
+                let x = ((a.0).0[0] & 31) as usize;
                 if x == 0 {
                     None
                 } else {
@@ -150,3 +152,4 @@ plain_field!(PF17Config, PF17, 17, 3, 4, 0, 5);
 plain_field!(PF5Config, PF5, 5, 2, 2, 0, 3);
 plain_field!(PF3Config, PF3, 3, 2, 1, 0, 2);
 plain_field!(PF19Config, PF19, 19, 2, 1, 4, 5);
+plain_field!(PF7Config, PF7, 7, 3, 1, 1, 3);
